@@ -294,7 +294,7 @@ Definition put_bloom_index (s : kvstore) (blooms : list bloom) (section : N) : o
   if negb (BloomBitsBlocks mod 8 =? 0) then None
   else if negb (N.of_nat (length blooms) =? BloomBitsBlocks) then None
   else Some (fold_left (fun acc iv => kv_put acc (bloom_bits_key (fst iv) section) (compress_bytes (snd iv)))
-                       (combine (nseq 0 BloomBitLength) (gen_vectors blooms)) s).
+                       (combine (nseq 0 (zN (put_index_bound (Z.of_N BloomBitLength)))) (gen_vectors blooms)) s).
 
 (** [SaveBloomData]; [None] = panic *)
 Definition save_bloom_data (st : bstate) (h : N) (b : bloom) : option bstate :=
